@@ -447,4 +447,120 @@ example (node : Ecal.Parse.Node) :
     clEv ((runBuiltin 1 0 node "raise" [.str [97]]).run.run {}).1 = .error := by
   unfold runBuiltin; cases h : node.tok <;> simp only [h] <;> rfl
 
+/-! ## round 8: `type` -/
+
+/-- a computation of the evaluator monad that can only fail by leaving the model (fuel / `unsupported`) -/
+def OutM {α : Type} (m : M α) : Prop := ∀ (s s' : St) (e : Sig), m.run.run s = (.error e, s') → OutS e
+
+/-- `pure` never fails -/
+theorem OutM.pure {α : Type} (a : α) : OutM (Pure.pure a : M α) := by
+  intro s s' e h; cases h
+
+/-- throwing a fuel / `unsupported` signal leaves the model -/
+theorem OutM.throw {α : Type} (e : Sig) (h : OutS e) : OutM (throw e : M α) := by
+  intro s s' e' h'; cases h'; exact h
+
+/-- `OutM` is closed under bind -/
+theorem OutM.bind {α β : Type} (m : M α) (g : α → M β) (hm : OutM m) (hg : ∀ a, OutM (g a)) : OutM (m >>= g) := by
+  intro s s' e h
+  cases hr : m.run.run s with
+  | mk r s1 =>
+    cases r with
+    | ok a => rw [bind_run_ok m g s s1 a hr] at h; exact hg a _ _ _ h
+    | error e1 =>
+      rw [bind_run_err m g s s1 e1 hr] at h
+      cases h; exact hm _ _ _ hr
+
+/-- `OutM` is closed under `List.mapM` -/
+theorem OutM.mapM {α β : Type} (g : α → M β) (h : ∀ a, OutM (g a)) : ∀ l : List α, OutM (l.mapM g) := by
+  intro l; induction l with
+  | nil => simp only [List.mapM_nil]; exact OutM.pure _
+  | cons x xs ih =>
+    simp only [List.mapM_cons]
+    exact OutM.bind _ _ (h x) (fun _ => OutM.bind _ _ ih (fun _ => OutM.pure _))
+
+/-- the value printer only fails by leaving the model (from `sprint_cases`) -/
+theorem OutM.sprint (v : Val) : OutM (sprint v) := by
+  intro s s' e h
+  rcases sprint_cases v s with ⟨t, ht⟩ | ⟨e1, he, ho⟩
+  · rw [ht] at h; cases h
+  · rw [he] at h; cases h; exact ho
+
+/-- reading a list window never fails -/
+theorem OutM.getList (r l : Nat) : OutM (getList r l) := by
+  intro s s' e h; cases h
+
+/-- **the `%#v` printer of the model only ever fails by leaving the model** (fuel, or a value it does not cover) -/
+theorem goSyntax_out : ∀ (f : Nat) (v : Val), OutM (goSyntax f v) := by
+  intro f
+  induction f with
+  | zero => intro v; unfold goSyntax; exact OutM.throw _ (Or.inl rfl)
+  | succ f ih =>
+    intro v
+    unfold goSyntax
+    cases v with
+    | null => exact OutM.pure _
+    | bool b => cases b <;> exact OutM.pure _
+    | num x =>
+      simp only []
+      split
+      · exact OutM.sprint _
+      · exact OutM.throw _ (Or.inr ⟨_, rfl⟩)
+    | str t =>
+      simp only []
+      split
+      · exact OutM.pure _
+      · exact OutM.throw _ (Or.inr ⟨_, rfl⟩)
+    | list r l =>
+      simp only []
+      split
+      · exact OutM.pure _
+      · exact OutM.bind _ _ (OutM.getList r l) (fun xs =>
+          OutM.bind _ _ (OutM.mapM _ (fun x => by cases x <;> first | exact OutM.pure _ | exact ih _) xs)
+            (fun _ => OutM.pure _))
+    | _ => exact OutM.throw _ (Or.inr ⟨_, rfl⟩)
+
+/-- the Prims transcription of `type` answers with a value on every non-empty argument vector -/
+theorem typeFunc_cons (x : PVal) (xs : List PVal) : typeFunc (x :: xs) = .ok (.str "" none) := by
+  simp [typeFunc, goIndex_zero, bind, Except.bind]
+
+/-- printing the first argument of `type`: a value, or the model leaves itself -/
+theorem type_tail (f : Nat) (a : Val) (s : St) :
+    clEv (((do let x ← goSyntax f a; pure (Val.str x)) : M Val).run.run s).1 = Cl.outside ∨
+    clEv (((do let x ← goSyntax f a; pure (Val.str x)) : M Val).run.run s).1 = Cl.value := by
+  cases hr : (goSyntax f a).run.run s with
+  | mk r s1 =>
+    cases r with
+    | ok t => right; rw [bind_run_ok _ _ s s1 t hr]; rfl
+    | error e => left; rw [bind_run_err _ _ s s1 e hr]; exact clEv_out e (goSyntax_out f a s s1 e hr)
+
+/-- **type: the Prims transcription and the evaluator's `type` answer with the same class** on every argument vector,
+    heap, fuel and call node (no argument: an error value; otherwise a value), unless the evaluator model leaves
+    itself (fuel, or a value its `%#v` printer does not cover: a map, a function, a non-integral number, a string that
+    needs quoting). -/
+theorem type_agree (f sc : Nat) (node : Ecal.Parse.Node) (args : List Val) (s : St) :
+    Agree ((runBuiltin (f+1) sc node "type" args).run.run s).1 (typeFunc (args.map (absV s))) := by
+  unfold Agree
+  unfold runBuiltin
+  simp only []
+  match args with
+  | [] => right; rfl
+  | a :: rest =>
+    rw [List.map_cons, typeFunc_cons]
+    cases a with
+    | null => right; rfl
+    | _ =>
+      simp only []
+      exact type_tail f _ s
+
+/-- non-vacuity of `type_agree`: on a boolean and on the nil list the evaluator side is inside the model and is a
+    value; without an argument both sides are an error value -/
+example (node : Ecal.Parse.Node) : clEv ((runBuiltin 2 0 node "type" [.bool true]).run.run {}).1 = .value := by
+  unfold runBuiltin; rfl
+example (node : Ecal.Parse.Node) : clEv ((runBuiltin 2 0 node "type" [.list 0 0]).run.run {}).1 = .value := by
+  unfold runBuiltin; rfl
+example (node : Ecal.Parse.Node) : clEv ((runBuiltin 2 0 node "type" []).run.run {}).1 = .error := by
+  unfold runBuiltin; rfl
+example : clP (typeFunc []) = .error := rfl
+
 end Ecal.Lemmas.C06PrimsTie
